@@ -500,6 +500,12 @@ func Generate(r *rng.R, mode int) *Case {
 			csp.Spec.KeepAlive = &ngfAPI.ClientKeepAlive{Requests: ptr(int32(100)), Time: ptr(ngfAPI.Duration("1h")),
 				Timeout: &ngfAPI.ClientKeepAliveTimeout{Server: ptr(ngfAPI.Duration("75s")), Header: ptr(ngfAPI.Duration("20s"))}}
 		}
+		// a policy that sets nothing (body and keepAlive are optional): valid, its include file renders no directive.
+		// Chosen without drawing from r, so that the rest of the scenario stream is unchanged.
+		if (len(c.Objs)+len(routes))%5 == 0 {
+			csp.Spec.Body, csp.Spec.KeepAlive = nil, nil
+			c.tag("csp-empty-spec")
+		}
 		c.Objs = append(c.Objs, csp)
 		c.tag("csp-on-route")
 	}
